@@ -14,9 +14,10 @@ BASE = ("Trusted base: Coq 8.16.1 kernel (coqc; vm_compute only for witnesses / 
 TECH = "Coq proof about an executable Gallina model + extraction-based differential correspondence with the code + spec oracle on the implementation"
 
 CHECKS = {
-    'C01': "Proved (all inputs): each leaf encoding has the documented language (`?` one non-separator, `*`/`$` separator-free texts, classes by exact code point "
-           "independent of the case-folding relation, lone tree wildcard = every text incl. newline). Tie: token tree, regex text, is_match vs the extracted model. "
-           "Oracle: is_match vs the executable documented language Spec.spec_match (expansion/flat-position semantics) outside the named known classes.",
+    'C01': "Proved (all inputs): C01_conformance - for every token tree with valid class ranges and ordered bounds in the decidable class trees_exact, the program the "
+           "encoder emits matches a text iff the text is in the documented language Lang (expansions + flat-position semantics, stated without regexes); per-leaf "
+           "statements (`?`, `*`/`$`, classes independent of the case-folding relation, lone tree wildcard = every text incl. newline). Tie: token tree, regex text, "
+           "is_match vs the extracted model. Oracle: is_match vs the executable Spec.spec_match; outside trees_exact only the three named known classes are tolerated.",
     'C04': "Proved: the compiled program has exactly one group per capturing token of the top-level concatenation and none for nested tokens; wildcard groups are "
            "separator-free. Tie: captures() and every capture span (borrowed/owned, indices 0..n+1) vs the model's leftmost-first matcher. Oracle: ordering, disjointness, "
            "separator-freeness, complete components, re-match of each capture by its own sub-expression.",
@@ -33,8 +34,9 @@ CHECKS = {
            "exhaustive/non-exhaustive partition vs the model of the repaired sequencer. Oracle: for every Always verdict, descendants of matched canonical paths are matched.",
     'C10': "Proved so far: leaf terms only (the full soundness statement is in the file as C10_full). Tie: depth() exact variance vs the model of the whole algebra "
            "(conjunction table, disjunction over hash sets, products, finalize). Oracle: component count of every matched canonical path within the reported variance.",
-    'C11': "Proved so far: a case sensitive literal matches exactly its text. Tie: text() vs the model (fragments, casing table regenerated from the code). Oracle: invariant "
-           "text is matched (absent separator classes) and is the only matched path.",
+    'C11': "Proved (all token trees, combinators included): C11_unique - invariant text => no other text is in the documented language (hypothesis on the two tables: a "
+           "caseless character only folds to itself; validated over all code points on every run); two different texts => variant. Tie: text() vs the model. Oracle: "
+           "invariant text is matched (absent separator classes) and is the only matched path, incl. its case variants.",
     'C12': "Proved (all token trees, combinators included): has_root = Always => every path of the documented language begins with a separator. Tie: has_root(), "
            "has_semantic_literals(). Oracle: matched paths of always-rooted patterns; globs never Sometimes (one known class); `.`/`..` components at any depth.",
     'C17': "Proved so far: the repaired parse-error span covers exactly the character at the location. Tie: every error and capture span vs the span-annotated parser model. "
